@@ -278,7 +278,10 @@ def rand_instances(rng, n):
         elif c == 12:
             d = dt.datetime(rng.randint(1, 9999), rng.randint(1, 12), rng.randint(1, 28), rng.choice([0, rng.randint(0, 23)]), rng.choice([0, rng.randint(0, 59)]),
                             rng.choice([0, rng.randint(0, 59)]), rng.choice([0, 1, 999999, rng.randint(0, 999999)]), fold=rng.choice([0, 0, 1]))
-            yield 'datetime', d.replace(tzinfo=rng.choice(zones))
+            yield 'datetime', d.replace(tzinfo=rng.choice(zones + [None, None]))
+            if rng.random() < 0.15:
+                # the repeated local midnight when DST ends: a naive (or aware) datetime at 00:00:00.000000 with fold=1
+                yield 'datetime', dt.datetime(d.year, d.month, d.day, fold=1, tzinfo=rng.choice([None, None] + zones))
         elif c == 13:
             t = dt.time(rng.choice([0, rng.randint(0, 23)]), rng.choice([0, rng.randint(0, 59)]), rng.choice([0, rng.randint(0, 59)]), rng.choice([0, rng.randint(0, 999999)]), fold=rng.choice([0, 0, 1]))
             yield 'time', t.replace(tzinfo=rng.choice([None, dt.timezone.utc, dt.timezone(TD(minutes=rng.randint(-1439, 1439))), pytz.utc, pytz.FixedOffset(rng.randint(-700, 700))]))
